@@ -174,6 +174,17 @@ func (ir *IntrospectionResolver) resolveType(schema *ast.Schema, typ *ast.Type, 
 					types = append(types, ir.resolveType(schema, &ast.Type{NamedType: t}, f.SelectionSet))
 				}
 				result[f.Alias] = types
+			} else if namedType.Kind == ast.Interface {
+				// the possible types of an interface are the object types implementing it
+				types := []map[string]interface{}{}
+				for _, t := range schema.PossibleTypes[namedType.Name] {
+					if t.Kind != ast.Object {
+						continue
+					}
+					types = append(types, ir.resolveType(schema, &ast.Type{NamedType: t.Name}, f.SelectionSet))
+				}
+				sortPayload(types)
+				result[f.Alias] = types
 			} else {
 				result[f.Alias] = nil
 			}
